@@ -529,7 +529,7 @@ fn unquote_agree(val: &Unquote<'_>) -> Result<(), (String, String)> {
 pub fn run_c17(ctx: &Ctx, rep: &mut Report) {
     // every string over the property's alphabet
     {
-        let maxlen = if ctx.thorough() { 8 } else { 7 };
+        let maxlen = if ctx.thorough() && ctx.config == "oc" { 9 } else if ctx.thorough() { 8 } else { 7 };
         let n = mccore::strings_upto_count(10, maxlen);
         ctx.family(
             rep,
@@ -557,7 +557,7 @@ pub fn run_c17(ctx: &Ctx, rep: &mut Report) {
     // white space or structure (C3 A0, C3 85, C2 A0, C2 85, F0 9F 98 A0), tab, and the structural characters
     {
         let syms: [&str; 13] = ["<", ">", ";", ",", "\"", "\\", "=", " ", "a", "à", "\u{a0}", "\u{1F620}", "Å"];
-        let maxlen = if ctx.thorough() { 7 } else { 6 };
+        let maxlen = if ctx.thorough() && ctx.config == "oc" { 8 } else if ctx.thorough() { 7 } else { 6 };
         let n = mccore::strings_upto_count(13, maxlen);
         ctx.family(
             rep,
